@@ -87,7 +87,13 @@ class Run:
         self.case = case
         self.n, self.item, self.chunk = case["len"], case["item"], case["chunk"]
         self.dir = tempfile.mkdtemp(prefix="ssepy-c19-")
-        self.path = os.path.join(self.dir, "arr")
+        # the array's path is the caller's choice: names with characters that templates, globs and format strings treat specially
+        self.name = case.get("name", "arr")
+        self.path = os.path.join(self.dir, self.name)
+        # a second array of the same geometry lives next door (own directory) while the history runs
+        self.dir2 = tempfile.mkdtemp(prefix="ssepy-c19b-")
+        self.arr2 = None
+        self.model2 = None
         self.arr = None
         self.model = None
 
@@ -107,11 +113,11 @@ class Run:
 
     def check_dir(self, step):
         nfiles = -(-self.n // self.chunk)
-        allowed = {"arr_meta"} | {"arr_%d" % k for k in range(nfiles)}
+        allowed = {self.name + "_meta"} | {"%s_%d" % (self.name, k) for k in range(nfiles)}
         got = set(os.listdir(self.dir))
         if not got <= allowed:
             self.fail(step, "unexpected files %r in the array's directory" % sorted(got - allowed), "dir:stray")
-        if "arr_meta" not in got:
+        if self.name + "_meta" not in got:
             self.fail(step, "meta file missing", "dir:meta")
 
     def full_read(self, step, why):
@@ -231,6 +237,25 @@ class Run:
             got = list(a)
             if got != m:
                 self.fail(k, "iteration differs from the model", "iter")
+        elif t in ("o_get", "o_set", "o_slice"):
+            # operations on the OTHER array (never written at first): reads of it return zeros, writes stay in it, and nothing of it
+            # shows in this array (the full comparison of this array follows every step anyway)
+            from data_persistence.persistent_array import SPFLBArray
+            if self.arr2 is None:
+                self.arr2 = SPFLBArray.create(os.path.join(self.dir2, self.name), item_size=self.item, array_len=self.n, item_num_in_one_file=self.chunk)
+                self.model2 = [b"\x00" * self.item] * self.n
+            i = op[1] % n
+            if t == "o_get":
+                if self.arr2[i] != self.model2[i]:
+                    self.fail(k, "the neighbouring array returns %r at %d, its model %r" % (self.arr2[i], i, self.model2[i]), "neighbour:get")
+            elif t == "o_set":
+                v = bytes([1 + op[2] % 255]) * self.item
+                self.arr2[i] = v
+                self.model2[i] = v
+            else:
+                if self.arr2[:] != self.model2:
+                    self.fail(k, "the neighbouring array's full read differs from its model", "neighbour:slice")
+            self.full_read(k, "after_neighbour_op")
         elif t in ("it_new", "it_next"):
             # an iterator kept alive across other operations: a list iterator is live (it sees writes to items it has not
             # reached yet); the model is Python's own list iterator over the model list
@@ -292,7 +317,13 @@ class Run:
                 self.arr.close()
         except Exception:
             pass
+        try:
+            if self.arr2 is not None:
+                self.arr2.close()
+        except Exception:
+            pass
         shutil.rmtree(self.dir, ignore_errors=True)
+        shutil.rmtree(self.dir2, ignore_errors=True)
 
 
 def run_case(case):
@@ -355,7 +386,7 @@ def st_slice(draw, n):
 def st_op(draw, n, item):
     t = draw(st.sampled_from(["get", "get", "get", "set", "set", "set", "getslice", "getslice", "setslice", "setslice", "setslice",
                               "del", "delslice", "clear", "iter", "contains", "contains_straddle", "len", "reopen", "reopen", "closed", "ctx", "sync",
-                              "setslice_noniter", "it_new", "it_next", "it_next", "it_next"]))
+                              "setslice_noniter", "it_new", "it_next", "it_next", "it_next", "o_get", "o_get", "o_set", "o_slice"]))
     idx = st.one_of(st.integers(-n, n - 1), st.integers(-n - 3, n + 2), st.sampled_from([-1, -n, 0, n - 1, n, -n - 1]))
     if t == "get":
         return ["get", draw(idx)] + (["obj"] if draw(st.integers(0, 4)) == 0 else [])
@@ -374,6 +405,8 @@ def st_op(draw, n, item):
         return ["delslice", draw(st_slice(n))]
     if t == "it_next":
         return ["it_next", draw(st.integers(1, 4))]
+    if t in ("o_get", "o_set", "o_slice"):
+        return [t, draw(st.integers(0, 60)), draw(st.integers(0, 300))]
     if t == "contains_straddle":
         return ["contains_straddle", draw(st.integers(0, 60)), draw(st.integers(0, 8))]
     if t == "contains":
@@ -423,6 +456,9 @@ def st_case(draw, max_ops=25):
     chunks_ = draw(st.lists(st.one_of(st_op(n, item).map(lambda o: [o]), st_walk(n, item)), min_size=1, max_size=max_ops))
     ops = [o for ch in chunks_ for o in ch][:max_ops]
     c["ops"] = ops or [["len"]]
+    if draw(st.integers(0, 3)) == 0:
+        c["name"] = draw(st.sampled_from(["arr{0}", "{a1b2-c3d4}", "set{{1}}", "arr%d", "100%s", "a b", "arr[1]", "arr*", "arr?", "\u00e4rr", "arr.0", "_", "arr_0",
+                                          "arr_meta", "-r"]))
     return c
 
 
